@@ -30,6 +30,10 @@ pub struct Tracker {
 	pub snap: Option<SnapCfg>,
 	pub snaps: Vec<SnapMeta>,
 	pub eligible: u64,
+	/// log files whose truncation / removal has been announced to the tracker but may not have
+	/// happened yet (the hook runs before the real call): images taken by other threads in
+	/// between treat them as already truncated, never as files with an unsynced tail
+	pub in_flight: std::collections::BTreeSet<String>,
 }
 
 /// Threaded mode (real worker threads): at every log sync and every log truncate / unlink a
@@ -53,6 +57,14 @@ pub struct SnapMeta {
 	pub dir: PathBuf,
 	pub kept_pages: u64,
 	pub dropped_pages: u64,
+	/// the image holds a generated prefix of the unsynced bytes of every log file (power failing
+	/// during the sync of a log file); what is recovered from it was not necessarily durable
+	pub volatile: bool,
+	/// number of log files that held unsynced bytes when the image was taken
+	pub unsynced_logs: u64,
+	/// log files whose generated cut was raised to the replay anchor (known finding, excluded)
+	pub anchors_kept: u64,
+	pub log_cuts: Vec<(String, usize, usize, usize)>,
 }
 
 /// Number of commit calls the client has started (threaded mode).
@@ -62,6 +74,10 @@ pub static ISSUED: AtomicU64 = AtomicU64::new(0);
 /// call is not), and the call is slowed down by this many microseconds ("slow disk").
 pub static THREADED: AtomicBool = AtomicBool::new(false);
 pub static MSYNC_DELAY_US: AtomicU64 = AtomicU64::new(0);
+/// Threaded mode: the sync of a log file is preceded by this delay ("slow disk": the log worker
+/// may meanwhile append the next record to the next log file, so that two log files hold unsynced
+/// bytes), after which a power-loss image WITH unsynced log bytes is taken (`SnapMeta::volatile`).
+pub static LOGSYNC_DELAY_US: AtomicU64 = AtomicU64::new(0);
 
 /// EIO mode (C16, real worker threads): the interposed write / sync / truncate / unlink / mmap
 /// calls on files of `EIO_ROOT` succeed this many more times and fail with EIO from then on, on
@@ -193,7 +209,7 @@ fn start_inner(root: &Path, shadow: &Path, check_i2: bool, keep: bool) {
 	let _ = std::fs::create_dir_all(shadow);
 	IN_HOOK.with(|h| h.set(true));
 	*TRACKER.lock().unwrap_or_else(|e| e.into_inner()) =
-		Some(Tracker { root: root.to_path_buf(), shadow: shadow.to_path_buf(), maps: BTreeMap::new(), violations: vec![], events: 0, msyncs: 0, fsyncs: 0, check_i2, snap: None, snaps: vec![], eligible: 0 });
+		Some(Tracker { root: root.to_path_buf(), shadow: shadow.to_path_buf(), maps: BTreeMap::new(), violations: vec![], events: 0, msyncs: 0, fsyncs: 0, check_i2, snap: None, snaps: vec![], eligible: 0, in_flight: Default::default() });
 	IN_HOOK.with(|h| h.set(false));
 }
 
@@ -214,6 +230,7 @@ pub fn start_threaded(root: &Path, shadow: &Path, snap: SnapCfg, msync_delay_us:
 pub fn stop() -> Option<Tracker> {
 	THREADED.store(false, Ordering::SeqCst);
 	MSYNC_DELAY_US.store(0, Ordering::SeqCst);
+	LOGSYNC_DELAY_US.store(0, Ordering::SeqCst);
 	IN_HOOK.with(|h| h.set(true));
 	let t = TRACKER.lock().unwrap_or_else(|e| e.into_inner()).take();
 	IN_HOOK.with(|h| h.set(false));
@@ -242,6 +259,10 @@ fn fd_name(t: &Tracker, fd: i32) -> Option<String> {
 }
 
 fn take_snapshot(t: &mut Tracker, what: &str) {
+	take_snapshot_kind(t, what, false)
+}
+
+fn take_snapshot_kind(t: &mut Tracker, what: &str, volatile: bool) {
 	let cfg = match &t.snap {
 		Some(c) => c.clone(),
 		None => return,
@@ -256,8 +277,14 @@ fn take_snapshot(t: &mut Tracker, what: &str) {
 	// mode 0: none of the dirty pages; otherwise a generated subset
 	let mode = if seed % 3 == 0 { 0 } else { 2 };
 	let issued = ISSUED.load(Ordering::SeqCst);
+	if volatile {
+		if let Ok(r) = crate::props::c12::build_power_image_ex(&t.root, &t.shadow, &dir, seed, 2, false, true, &t.in_flight) {
+			t.snaps.push(SnapMeta { seq, what: what.to_string(), issued, dir, kept_pages: r.kept, dropped_pages: r.dropped, volatile: true, unsynced_logs: r.unsynced_logs, anchors_kept: r.anchors_kept, log_cuts: r.log_cuts });
+		}
+		return
+	}
 	if let Ok((kept, dropped, _)) = crate::props::c12::build_power_image(&t.root, &t.shadow, &dir, seed, mode, true) {
-		t.snaps.push(SnapMeta { seq, what: what.to_string(), issued, dir, kept_pages: kept, dropped_pages: dropped });
+		t.snaps.push(SnapMeta { seq, what: what.to_string(), issued, dir, kept_pages: kept, dropped_pages: dropped, volatile: false, unsynced_logs: 0, anchors_kept: 0, log_cuts: Vec::new() });
 	}
 }
 
@@ -274,6 +301,28 @@ fn ensure_shadow(t: &Tracker, name: &str) -> Option<std::fs::File> {
 		let _ = f.set_len(cur_len);
 	}
 	Some(f)
+}
+
+/// Threaded mode, called before the real fdatasync / fsync: see `LOGSYNC_DELAY_US`.
+pub fn before_log_sync(fd: i32) {
+	if !THREADED.load(Ordering::SeqCst) {
+		return
+	}
+	let mut log_name: Option<String> = None;
+	guarded(|t| {
+		if t.snap.is_some() {
+			log_name = fd_name(t, fd).filter(|n| is_log(n));
+		}
+	});
+	let name = match log_name {
+		Some(n) => n,
+		None => return,
+	};
+	let d = LOGSYNC_DELAY_US.load(Ordering::SeqCst);
+	if d > 0 {
+		std::thread::sleep(std::time::Duration::from_micros(d));
+	}
+	guarded(|t| take_snapshot_kind(t, &format!("power failure during the sync of {name}"), true));
 }
 
 pub fn on_fsync(fd: i32) {
@@ -366,6 +415,27 @@ pub fn on_ftruncate(fd: i32, len: i64) {
 			}
 			if is_log(&name) && len == 0 {
 				take_snapshot(t, &format!("truncate of {name}"));
+				t.in_flight.insert(name);
+			}
+		}
+	});
+}
+
+/// After the real ftruncate returned.
+pub fn after_ftruncate(fd: i32) {
+	guarded(|t| {
+		if let Some(name) = fd_name(t, fd) {
+			t.in_flight.remove(&name);
+		}
+	});
+}
+
+/// After the real unlink returned.
+pub fn after_unlink(path: &Path) {
+	guarded(|t| {
+		if path.parent() == Some(&t.root) {
+			if let Some(name) = path.file_name().map(|n| n.to_string_lossy().to_string()) {
+				t.in_flight.remove(&name);
 			}
 		}
 	});
@@ -384,6 +454,7 @@ pub fn on_unlink(path: &Path) {
 				let _ = std::fs::remove_file(t.shadow.join(&name));
 				if is_log(&name) {
 					take_snapshot(t, &format!("unlink of {name}"));
+					t.in_flight.insert(name);
 				}
 			}
 		}
